@@ -433,7 +433,7 @@ func (p *proc) do(t Task) (Result, error) {
 	for {
 		line, err := p.out.ReadBytes('\n')
 		if err != nil {
-			return Result{}, fmt.Errorf("worker died: %v (last %q)", err, line)
+			return Result{}, fmt.Errorf("worker died: %v (last %q) while running path %v", err, line, append(append([]string{}, t.Path...)))
 		}
 		if !strings.HasPrefix(string(line), "@@") {
 			continue
